@@ -26,8 +26,14 @@ def main(tier, replay=None):
               for r in ("", "_rate")]
     visco = ["visco_1", "visco_3"]
     targets = [(v, m) for v in ELASTIC + j2 + visco for m in ("jit", "vmapBatch")]
-    plan = mp.shares(targets, n_sim=25 if quick else 300, n_ex_extra=60 if quick else 1500,
-                     cap_ex={"plastic": 40, "viscous": 40} if quick else {"plastic": 1500, "viscous": 1500})
+    def rotated_after_evolution(b):
+        """history kinds serve C08 by rotating EVOLVED states: prefer walks with a rotation after Commit/Load/Hold"""
+        acts = [o["a"] for o in b]
+        ev = [i for i, a in enumerate(acts) if a in ("Commit", "Load", "Hold")]
+        return bool(ev) and any(a in ("SupRot", "RefRot") for a in acts[ev[0]:])
+    plan = mp.shares(targets, n_sim=40 if quick else 300, n_ex_extra=60 if quick else 1500,
+                     cap_ex={"plastic": 30, "viscous": 30} if quick else {"plastic": 1500, "viscous": 1500},
+                     prefer=rotated_after_evolution)
 
     def few(n, maxlen):
         def pick(behs, rng):
@@ -38,7 +44,7 @@ def main(tier, replay=None):
     plan += [(v, "single", few(2 if quick else 12, 6)) for v in ELASTIC]
     plan += [(v, "single", few(1 if quick else 6, 4)) for v in (["j2_seth_hill_power", "visco_1"] if quick else j2[:6] + visco)]
     return mp.run_check(PID, tier, replay, plan, ["elastic", "plastic", "viscous"],
-                        {"elastic": 40 if quick else 400, "plastic": 60 if quick else 500, "viscous": 60 if quick else 500},
+                        {"elastic": 40 if quick else 400, "plastic": 300 if quick else 1500, "viscous": 300 if quick else 1500},
                         rule="load histories = action sequences of MaterialPointGen_<kind>_<tier>.cfg (all of them, each to one "
                              "model x exec mode round robin, plus seeded extra shares) + seeded TLC random walks; moduli over "
                              "decades, strain magnitudes 1e-8..1, deformation classes incl. exactly equal stretches, proper "
